@@ -77,6 +77,12 @@ class MapSpec(H.Spec):
         for i in list(range(0, 5)) + [-1]:
             ops.append(('pop_at', i))
         ops += [('sort',), ('sort_rev',), ('reverse',), ('clear',)]
+        for kf in ('const', 'class', 'value'):
+            ops.append(('sort_key', kf, False))
+            ops.append(('sort_key', kf, True))
+        for k in KEYS + ['zz']:
+            ops.append(('read_index', k))
+        ops.append(('read_at', 0))
         if isinstance(impl, self.MO):
             for k in KEYS:
                 ops.append(('m_append', k))
@@ -158,6 +164,18 @@ class MapSpec(H.Spec):
         if kind == 'reverse':
             p.reverse()
             return ('ok', None, None)
+        if kind == 'sort_key':
+            vals = dict((a, b) for a, b in p)       # taken first: a list looks empty to its own key function while it is being sorted
+            p.sort(key=lambda q: self.keyfn(op[1], q[0], vals), reverse=op[2])   # list.sort is stable, also with reverse=True
+            return ('ok', None, None)
+        if kind == 'read_index':
+            if not m.has(op[1]):
+                return ('raise', {'ValueError'})
+            return ('ok', m.idx(op[1]), None)
+        if kind == 'read_at':
+            if not p:
+                return ('raise', {'IndexError'})
+            return ('ok', p[op[1]][0], None)
         if kind == 'clear':
             del p[:]
             return ('ok', None, None)
@@ -202,6 +220,13 @@ class MapSpec(H.Spec):
             return d.sort(reverse=True)
         elif kind == 'reverse':
             return d.reverse()
+        elif kind == 'sort_key':
+            vals = dict((k, self.norm(v)) for k, v in d.items())
+            return d.sort(key=lambda k: self.keyfn(op[1], k, vals), reverse=op[2])
+        elif kind == 'read_index':
+            return d.index(op[1])
+        elif kind == 'read_at':
+            return d.at(op[1])
         elif kind == 'clear':
             return d.clear()
         elif kind == 'm_append':
@@ -214,6 +239,14 @@ class MapSpec(H.Spec):
             return d.extend(dict(op[1]))
         else:
             raise HarnessError('unknown op %r' % (op,))
+
+    @staticmethod
+    def keyfn(name, k, vals):
+        if name == 'const':
+            return 0
+        if name == 'class':
+            return 0 if k in ('a', 'c') else 1
+        return str(vals.get(k))
 
     def norm(self, v):
         return 'M' if v is self.hs.MARKER else v
@@ -305,6 +338,8 @@ class MapSpec(H.Spec):
         order = getattr(d, '_order', None)
         values = getattr(d, '_values', None)
         hidden = ('unknown', id(d)) if order is None or values is None else (tuple(order), tuple(sorted((k, repr(v)) for k, v in values.items())))
+        # any further instance attribute (a position cache, a memo) is part of the state: two histories that differ in it are not merged
+        hidden = hidden + tuple((k, repr(v)[:200]) for k, v in sorted(vars(d).items()) if k not in ('_order', '_values', '_validate_fn'))
         return (type(d).__name__, tuple((k, repr(v)) for k, v in m.p), hidden)
 
 
